@@ -833,6 +833,10 @@ def _name_tree_failure(t, bindings, f, order_seed, via_shape):
         names = undocumented_functions(w.text or "")
         what = "+".join(names) if names else (_exc_class(w.got) if isinstance(w.got, BaseException) else "?")
         sig = f"print-parse|unparseable:{what}|root={small[0]}{stage}"
+        if "Piecewise" in names:
+            # one mechanism whatever else the text contains: SymPy prints a Piecewise (with Eq/True
+            # conditions and tuple arguments), which is outside the expression grammar altogether
+            sig = "print-parse|unparseable:Piecewise"
         if not names and w.want is not None and is_unary_minus_power(w.text, [(w.binding, w.want)]):
             # every function is known to the parser; it fails because it reads '-a**b' as '(-a)**b'
             sig = f"print-parse|parser-misreads|unary-minus-power{stage}"
@@ -1024,6 +1028,8 @@ def _name_string_failure(text, pytext, names, bindings, f):
         fn = undocumented_functions(f.text or "")
         what = "+".join(fn) if fn else (_exc_class(f.got) if isinstance(f.got, BaseException) else "?")
         sig = f"print-parse|unparseable:{what}|stage=parsed-then-printed"
+        if "Piecewise" in fn:
+            sig = "print-parse|unparseable:Piecewise"
         if not fn and f.want is not None and is_unary_minus_power(f.text, [(f.binding, f.want)]):
             # every function is known to the parser; it fails because it reads '-a**b' as '(-a)**b'
             sig = "print-parse|parser-misreads|unary-minus-power|stage=parsed-then-printed"
